@@ -293,6 +293,30 @@ def structural_faults(name: str) -> List[Tuple]:
     return out
 
 
+# pairs of faults on the cross-reference stream dictionary (/W, /Index, /Size and their elements): the entries are read together
+# (entry length x entry count), so some defects need two of them damaged (added after seeded defect C13_20 was missed)
+GEN2_VALUES = {"zero": 0, "big": 2**40, "zeros": [0, 0, 0], "empty": []}
+
+
+def gen2_faults(name: str) -> List[Tuple]:
+    out: List[Tuple] = []
+    st = generated_streams(name).get("xrefstm")
+    if st is None:
+        return out
+    sites = [(p, v) for p, v, _ in walk(st, ()) if p and p[0][1] in ("W", "Index", "Size")]
+    single = []
+    for path, v in sites:
+        for kind, val in GEN2_VALUES.items():
+            if isinstance(val, list) != isinstance(v, list) or val == v:
+                continue
+            single.append((path, kind))
+    for i in range(len(single)):
+        for j in range(i + 1, len(single)):
+            if single[i][0] != single[j][0]:
+                out.append(("gen2", "xrefstm", single[i], single[j]))
+    return out
+
+
 def generated_streams(name: str) -> Dict[str, Stream]:
     doc, kw = S.SEEDS[name]()
     got: Dict[str, Stream] = {}
@@ -341,6 +365,17 @@ def materialise(name: str, fault: Tuple) -> bytes:
         def mutate(k, st, which=which, path=path, kind=kind):
             if k == which:
                 _set_in(st, path, None if kind == "remove" else kind_value(kind, root, root), kind == "remove")
+    elif fault[0] == "gen2":
+        # two faults at once on the dictionary of the generated cross-reference stream
+        _, which, (p1, k1), (p2, k2) = fault
+
+        def mutate(k, st, which=which):
+            if k == which:
+                for path, kind in ((p1, k1), (p2, k2)):
+                    try:
+                        _set_in(st, path, GEN2_VALUES[kind], False)
+                    except (KeyError, IndexError, TypeError):
+                        pass  # the first fault removed the site of the second
     elif fault[0] == "genpayload":
         _, which, op, pos, val = fault
 
@@ -574,6 +609,10 @@ def shards(tier):
         fs = token_faults(name)
         for i in range(0, len(fs), 250):
             out.append(("tokens", name, i, min(i + 250, len(fs))))
+    for name in ("xref", "xrefidx"):
+        fs = gen2_faults(name)
+        for i in range(0, len(fs), 150):
+            out.append(("gen2", name, i, min(i + 150, len(fs))))
     for name in t["payload_seeds"]:
         doc, kw = S.SEEDS[name]()
         for num in sorted(doc.objs):
@@ -625,6 +664,12 @@ def run_shard(shard, tier, st):
             judge(st, name, f, data, t["entries"], seed_bytes)
         if shard[2] == 0:
             st.sample({"seed": name, "fault": fs[3], "bytes": len(seed_bytes)})
+    elif shard[0] == "gen2":
+        fs = gen2_faults(name)[shard[2]:shard[3]]
+        for f in fs:
+            judge(st, name, f, materialise(name, f), t["entries"], seed_bytes)
+        if shard[2] == 0:
+            st.sample({"seed": name, "fault": fs[0], "family": "two faults on the xref-stream dictionary"})
     elif shard[0] == "tokens":
         fs = token_faults(name)[shard[2]:shard[3]]
         for f in fs:
